@@ -523,18 +523,11 @@ def modelable(case):
 
 
 def hangs(case):
-    """a regular member written over a fifo blocks in open(); do not run those"""
-    fifo_names = set()
-    for m in case["members"]:
-        n = os.path.normpath("/" + m["name"])
-        if m["kind"] == "fifo":
-            fifo_names.add(n)
-    if not fifo_names:
-        return False
-    # conservative: any fifo together with a regular/hard-link/audit member after it, or symlinks around
+    """a regular member written over an extracted fifo blocks in open(), over a device node it talks to the
+    device (not a file system effect): do not run those"""
     seen = False
     for m in case["members"]:
-        if m["kind"] == "fifo":
+        if m["kind"] in ("fifo", "chr", "blk"):
             seen = True
         elif seen and m["kind"] in ("reg", "lnk"):
             return True
@@ -586,7 +579,7 @@ def hostile_part(ctx, jail, cases):
     out0 = None
     for case in cases:
         if hangs(case):
-            ctx.count("hostile:skipped-fifo-write")
+            ctx.count("hostile:skipped-write-after-fifo-or-device")
             continue
         outcome, exc, before, after, dec = run_hostile(jail, case)
         ctx.evaluated()
@@ -653,7 +646,7 @@ def eval_hostile(ctx, coq_cases, meta, fs0, tag):
     pre = PREAMBLE + "Definition fs0 : fsys := %s.\nDefinition AUDITP : path := %s.\nDefinition DEST : path := %s.\nDefinition out0 : list (path * xent) := %s.\n" % (
         fs0, cpath(AUDIT), cpath(WS), out0)
     bad, log = coq.run_cases(ctx, ["BobV.C08.Model"], "(fun a => bob_extract %d%%nat fs0 AUDITP DEST a)" % FUEL, "(check_extract_in out0)",
-                             coq_cases, preamble=pre, tag=tag, shard=50)
+                             coq_cases, preamble=pre, tag=tag, shard=130)
     if bad is None:
         ctx.tie_broken("C08 model evaluation failed (%s)" % tag, log)
         return
@@ -1008,7 +1001,7 @@ def eval_lossless(ctx, coq_cases, meta, fs0):
     if bad is None or bad:
         ctx.tie_broken("sha1-selftest", log if bad is None else "SHA-1 of the case evaluator differs from hashlib")
         return
-    bad, log = coq.run_cases(ctx, ["BobV.C08.Model"], "(fun i => i)", "check_lossless", coq_cases, preamble=pre, tag="loss", shard=4)
+    bad, log = coq.run_cases(ctx, ["BobV.C08.Model"], "(fun i => i)", "check_lossless", coq_cases, preamble=pre, tag="loss", shard=6)
     if bad is None:
         ctx.tie_broken("C08 model evaluation failed (lossless)", log)
         return
@@ -1216,7 +1209,7 @@ Definition verdict_eqb (a b : verdict) : bool :=
   match a, b with Accepted x, Accepted y => eqb_str x y | Failed, Failed => true | _, _ => false end.
 """ % rec
     bad, log = coq.run_cases(ctx, ["BobV.C08.Model"], "(fun a => snd (download sha1 recorded %d%%nat fs0 AUDITP DEST a))" % FUEL,
-                             "verdict_eqb", coq_cases, preamble=pre, tag="corr", shard=6)
+                             "verdict_eqb", coq_cases, preamble=pre, tag="corr", shard=12)
     if bad is None:
         ctx.tie_broken("C08 model evaluation failed (download)", log)
         return
@@ -1373,7 +1366,7 @@ def run(ctx):
         ctx.count("seconds:" + name, int(T[-1] - T[-2]))
     try:
         corpus = [unjson_case(c["case"]) for c in load_corpus() if c.get("kind") == "hostile"]
-        n = scaled(ctx.n(500, 12000))
+        n = scaled(ctx.n(500, 8000))
         cases = corpus + [gen_hostile(rng) for _ in range(n)]
         cc, meta, fs0 = hostile_part(ctx, jail, cases)
         lap("hostile-impl")
@@ -1385,12 +1378,15 @@ def run(ctx):
         jail.close()
     e2e_part(ctx, ctx.n(3, 13))
     lap("e2e")
-    eval_hostile(ctx, cc, meta, fs0, "host")
-    lap("hostile-model")
-    eval_lossless(ctx, lc, lmeta, lfs0)
-    lap("lossless-model")
-    eval_corruption(ctx, kc, kmeta, kfs0, ktab)
-    lap("corruption-model")
+    # the three model evaluations are independent: run their coqc shards side by side
+    from concurrent.futures import ThreadPoolExecutor
+    with ThreadPoolExecutor(max_workers=3) as ex:
+        futs = [ex.submit(eval_hostile, ctx, cc, meta, fs0, "host"),
+                ex.submit(eval_lossless, ctx, lc, lmeta, lfs0),
+                ex.submit(eval_corruption, ctx, kc, kmeta, kfs0, ktab)]
+        for f in futs:
+            f.result()
+    lap("model-evaluation")
 
 
 def replay(ctx):
